@@ -53,10 +53,14 @@ def render_doc(d, rng):
                 parts.append("<element_target><storyID>S1</storyID></element_target>")
             elif t == "storyitem":
                 parts.append("<element_target><storyID>S1</storyID><itemID>I1</itemID></element_target>")
+            elif t == "storyitemblank":
+                parts.append("<element_target><storyID>S1</storyID><itemID/></element_target>")
             s = k["src"]
             src = {"empty": "<element_source/>",
                    "storyID": "<element_source><storyID>S2</storyID><storyID>S3</storyID></element_source>",
                    "itemID": "<element_source><itemID>I2</itemID></element_source>",
+                   "itemIDblank": "<element_source><itemID>I2</itemID><itemID></itemID></element_source>"
+                   if rng.random() < 0.5 else "<element_source><itemID/></element_source>",
                    "item": "<element_source><item><itemID>J1</itemID><itemSlug>x</itemSlug></item></element_source>",
                    "story": "<element_source><story><storyID>N1</storyID><item><itemID>I1</itemID></item></story></element_source>",
                    }.get(s)
